@@ -405,8 +405,8 @@ def json_loads_value(it, fr, content):
         except Exception as e:
             raise PyExc(e)
     if isinstance(content, SBytes) and content.kind == 'canon':
-        used('json.load on canonical bytes: Parse(Canon(v)) = v, a fresh copy (A3)')
-        return clone(it, content.snapshot, deep=True)
+        used('json.load on canonical bytes: Parse(Canon(v)) = v as a JSON value (tuples come back as lists, non-string keys as their JSON spelling), a fresh copy (A3)')
+        return _jsonify(clone(it, content.snapshot, deep=True))
     if isinstance(content, SBytes) and content.kind == 'cat' and getattr(content, 'ws_suffix', False):
         used('json.load ignores trailing white space after the document')
         return json_loads_value(it, fr, content.parts[0])
@@ -415,6 +415,36 @@ def json_loads_value(it, fr, content):
     if isinstance(content, SAny):
         return json_loads_value(it, fr, fr.split(content))
     raise Unsupported('json.load of ' + (content.kind if isinstance(content, SBytes) else type(content).__name__))
+
+
+def _jsonify(v):
+    """what json.loads(json.dumps(v)) gives for the Python-only shapes json.dumps accepts: tuples -> lists, int / float / bool / None keys -> strings"""
+    if isinstance(v, (list, tuple)):
+        return [_jsonify(x) for x in v]
+    if isinstance(v, dict):
+        out = {}
+        for k, x in v.items():
+            if isinstance(k, Sym) and not issubclass(pytype_of(k), str):
+                raise Unsupported('JSON round trip of a dictionary with a symbolic non-string key')
+            if k is True or k is False or k is None:
+                k = {True: 'true', False: 'false', None: 'null'}[k]
+            elif isinstance(k, (int, float)) and not isinstance(k, Sym):
+                k = json.dumps(k)
+            out[k] = _jsonify(x)
+        return out
+    if isinstance(v, SDict):
+        for sl in v.slots:
+            if isinstance(sl[1], Sym) and not issubclass(pytype_of(sl[1]), str):
+                raise Unsupported('JSON round trip of a dictionary with a symbolic non-string key')
+            sl[2] = _jsonify(sl[2])
+        return v
+    if isinstance(v, SList):
+        v.items = [_jsonify(x) for x in v.items]
+        return v
+    if isinstance(v, SAny):
+        v.alts = [(l, _jsonify(x)) for l, x in v.alts]
+        return v
+    return v
 
 
 def json_load(it, fr, fobj, **kw):
